@@ -248,6 +248,69 @@ def run_case(R: Recorder, case: dict[str, Any], verbose: bool = False) -> None:
         R.sample({**case, "arrivals": arr, "starts": [starts.get(i) for i in range(n)], "results": [results.get(i, ("?",))[0] for i in range(n)]}, kind="burst" if burst else "plain")
 
 
+def run_alternating_loops(R: Recorder, case: dict[str, Any], verbose: bool = False) -> None:
+    """two live event loops used in turns by one thread: loop A is run piecewise (`run_until_complete` returns while calls of the throttled
+    function are still waiting in it), the same function is called in loop B meanwhile, then A runs on and gets one more call. Within one
+    loop calls still begin in arrival order, the window bound spans both loops, and every call runs."""
+    from hv.loop import Hang, Runaway, VirtualLoop, drain
+
+    from haiway import throttle
+
+    limit, period, nwait, nb = case["limit"], 1.0, case["waiting"], case["calls_in_b"]
+    clock = VClock()
+    t0 = clock.now
+    begins: list[tuple[str, float]] = []
+    results: dict[str, Any] = {}
+
+    async def function(tag: str) -> str:
+        begins.append((tag, clock.now - t0))
+        return tag
+
+    wrapped = throttle(limit=limit, period=period)(function)
+
+    async def call(tag: str) -> None:
+        results[tag] = await wrapped(tag)
+
+    A, B = VirtualLoop(clock, max_iterations=20000), VirtualLoop(clock, max_iterations=20000)
+    status, value = "ok", None
+    a_tags = [f"a{i}" for i in range(limit + nwait)]
+    try:
+        with patched_time(clock):
+            try:
+                asyncio.set_event_loop(A)
+                ta = [A.create_task(call(t)) for t in a_tags]
+                A.run_until_complete(ta[0])  # the first call is through; one of the others sleeps for its slot, the rest queue behind it
+                asyncio.set_event_loop(B)
+                for i in range(nb):
+                    B.run_until_complete(call(f"b{i}"))
+                asyncio.set_event_loop(A)
+                late = A.create_task(call("a-late"))
+                A.run_until_complete(asyncio.gather(*ta[1:], late))
+            except (Hang, Runaway) as exc:
+                status, value = type(exc).__name__.lower(), exc
+            except BaseException as exc:  # noqa: BLE001
+                status, value = "raised", exc
+    finally:
+        drain(A)
+        drain(B)
+    R.case(case, nontrivial=True)
+    R.count("histories_over_two_alternating_live_loops")
+    where0 = {"limit1": limit == 1, "pform": "float", "cancel": False, "alternating_loops": True}
+    if verbose:
+        print(status, value, begins, results)
+    expected_tags = [*a_tags, *[f"b{i}" for i in range(nb)], "a-late"]
+    if status != "ok" or sorted(results) != sorted(expected_tags):
+        R.monitor("progress", False, where={**where0, "kind": status if status != "ok" else "call-never-ran"}, detail=f"run ended {status} ({value!r}); calls that returned: {sorted(results)} of {expected_tags}; begins={begins}", case=case)
+        return
+    R.monitor("progress", True)
+    st = sorted(t for _, t in begins)
+    worst = max((sum(1 for b in st if a <= b < a + period) for a in st), default=0)
+    R.monitor("window", worst <= limit, where={**where0, "kind": "window-exceeded"}, detail=f"{worst} starts within one period window (limit {limit}); begins={begins}", case=case)
+    in_a = [tag for tag, _ in begins if tag.startswith("a")]
+    R.monitor("order", in_a == [*a_tags, "a-late"], where={**where0, "kind": "out-of-order"}, detail=f"calls made in loop A arrived as {[*a_tags, 'a-late']} and began as {in_a}; begins={begins}", case=case)
+    R.monitor("outcome", all(results[t] == t for t in expected_tags), where={**where0, "kind": "wrong-outcome"}, detail=f"{results}", case=case)
+
+
 def exhaustive(tier: str):  # noqa: ANN201
     for limit in (1, 2, 3, 4):
         for pform, period in (("float", 1.0), ("timedelta", 0.5), ("timedelta", 86400.0 if limit % 2 else 129600.0), ("timedelta", 1.5)):
@@ -326,7 +389,10 @@ def argname_wrappers() -> dict[str, tuple[Any, bool, bool]]:
 
 def run(R: Recorder, tier: str, seed: int, shard: int, nshards: int) -> None:
     if shard == 0:
+        for limit, waiting, calls_in_b in itertools.product((1, 2), (1, 2, 3), (1, 2)):
+            run_alternating_loops(R, {"alternating": True, "limit": limit, "waiting": waiting, "calls_in_b": calls_in_b})
         argnames.check(R, "arguments", argname_wrappers())
+        argnames.check_injecting(R, "arguments", argname_wrappers())
         stacking.check_transparent(R, "outcome", "throttle")
     R.flags["exhaustive_core"] = "all gap patterns of <= 5 calls over {0,1/4,1/2,1,5/4,2} periods x limits 1-4 x period forms"
     for i, case in enumerate(exhaustive(tier)):
@@ -338,6 +404,12 @@ def run(R: Recorder, tier: str, seed: int, shard: int, nshards: int) -> None:
 
 
 def replay(R: Recorder, case: dict[str, Any]) -> None:
+    if "injecting" in case:
+        argnames.check_injecting(R, "arguments", argname_wrappers())
+        return
+    if case.get("alternating"):
+        run_alternating_loops(R, case, verbose=True)
+        return
     if "argnames" in case:
         argnames.check(R, "arguments", argname_wrappers(), only=case["argnames"])
         return
